@@ -78,10 +78,15 @@ def run_tool(b, tool, data, workroot, timeout=20, args=(), keep=False, want_sig=
     """run one tool on `data` (bytes) in a fresh directory; returns a dict"""
     d = tempfile.mkdtemp(prefix="r-", dir=workroot)
     path = os.path.join(d, "in.exp")
-    with open(path, "wb") as fh:
-        fh.write(data)
     out_d = os.path.join(d, "out")
     os.mkdir(out_d)
+    if isinstance(data, dict):          # several files: "in.exp" is the input, the others are found relative to the cwd
+        for name, content in data.items():
+            with open(path if name == "in.exp" else os.path.join(out_d, name), "wb") as fh:
+                fh.write(content)
+    else:
+        with open(path, "wb") as fh:
+            fh.write(data)
     t0 = time.time()
     env = tool_env(b)
     try:
